@@ -104,17 +104,15 @@ def yearOfDay (n : Int) : Int :=
   let a := (n * 400) / 146097 + 1
   if daysBeforeYearC (a + 1) ≤ n then a + 1 else if daysBeforeYearC a ≤ n then a else a - 1
 
-/-- month containing the 0-based day-of-year `r`, by walking the months -/
-def monthOfDoy (a : Int) (r : Int) : Nat → Int × Int
-  | 0 => (12, r + 1)
-  | k + 1 =>
-    let m : Int := 12 - (k : Int)
-    if r < monthLen a m ∨ m ≥ 12 then (m, r + 1) else monthOfDoy a (r - monthLen a m) k
+/-- month and day of the 0-based day-of-year `r`, by walking the months from `m` (fuel = months left) -/
+def monthOfDoy (a : Int) : Nat → Int → Int → Int × Int
+  | 0, m, r => (m, r + 1)
+  | k + 1, m, r => if r < monthLen a m then (m, r + 1) else monthOfDoy a k (m + 1) (r - monthLen a m)
 
 /-- (year, month, day) of day number `n` -/
 def civil (n : Int) : Int × Int × Int :=
   let a := yearOfDay n
-  let (m, d) := monthOfDoy a (n - daysBeforeYearC a) 11
+  let (m, d) := monthOfDoy a 11 1 (n - daysBeforeYearC a)
   (a, m, d)
 
 /-- the value with timezone `tz` whose local time on the timeline is `t` -/
